@@ -29,7 +29,7 @@ def gen_scalar(rng):
     if k == "float":
         return rng.choice([0.5, 1.0, -2.0, 0.123456789, 1e-7, 123456.7890123, 2.5e-6, rng.random(), round(rng.random(), 3), 1 / 3])
     if k == "str":
-        return rng.choice(["", "a", "hello world", "quo\"te", "back\\slash", "new\nline", "tab\t", "unié日本", "\U0001F600", "1", "null", "NaN", " "])
+        return rng.choice(["", "a", "hello world", "quo\"te", "back\\slash", "new\nline", "tab\t", "unié日本", "\U0001F600", "1", "null", "NaN", " ", "lone\ud83dsurrogate", "\u2028"])
     if k == "none":
         return None
     if k == "bool":
